@@ -203,6 +203,18 @@ hzmp := pu x: int -> int do
     x
 end
 
+zinf_case :: fn s -> int do
+    case s do
+        A zx -> 0 end
+        B -> 1 end
+        B -> 2 end
+    end
+end
+
+zinf_tdivn :: fn p do
+    zq :: (p, 1.0) / 2.0
+end
+
 zinf_quot :: fn p ->
     (p / 2) > "s"
 end
@@ -335,6 +347,20 @@ pub const C03_KINDS: &[Kind] = &[
     k("un-annotated `(p / 2) > \"s\"` called with a float", Body::Stmts(&["zinf_quot(1.0)"])),
     k("un-annotated `(p / 2) > (else-less if)` called with a float", Body::Stmts(&["zinf_quotv(1.0, false)"])),
     k("un-annotated `(p / q) + 1` called with ints (the quotient is a float)", Body::Stmts(&["zinf_quotd(4, 2)"])),
+    // the recursive call comes from a closure nested in the function's own body
+    k("un-annotated recursive function: a nested closure passes another type", Body::Stmts(&["zrf :: fn zx, zn do", "    if zn > 0 do", "        zag :: fn do", "            zrf(\"oops\", zn - 1)", "        end", "        zag()", "    end", "    zy :: zx + 1", "end", "zrf(1, 1)"])),
+    k("un-annotated recursive function: a lambda argument passes another type", Body::Stmts(&["zrf :: fn zx, zn do", "    if zn > 0 do", "        list.for_each([1], fn ze do", "            zrf(\"oops\", zn - 1)", "        end)", "    end", "    zy :: zx + 1", "end", "zrf(1, 1)"])),
+    // every element-wise tuple operator, with an element type the operator is not defined for
+    k("tuple - tuple with str elements (variables)", Body::Stmts(&["za := (\"ab\", 3)", "zb := (\"b\", 1)", "zq := za - zb"])),
+    k("tuple * tuple with str elements (variables)", Body::Stmts(&["za := (\"ab\", 3)", "zb := (\"b\", 1)", "zq := za * zb"])),
+    k("tuple / tuple with str elements (variables)", Body::Stmts(&["za := (\"ab\", 3.0)", "zb := (\"b\", 1.0)", "zq := za / zb"])),
+    k("tuple < tuple with bool elements (variables)", Body::Stmts(&["za := (true, 3)", "zb := (false, 1)", "zq := za < zb"])),
+    k("nested tuple - nested tuple with str elements", Body::Stmts(&["za := (1, (\"ab\", 3))", "zb := (2, (\"b\", 1))", "zq := za - zb"])),
+    k("tuple - tuple with str elements (literals)", Body::Expr("(\"ab\", 3) - (\"b\", 1)")),
+    k("tuple / number with a str element", Body::Stmts(&["za := (\"ab\", 3.0)", "zq := za / 2.0"])),
+    k("un-annotated `(p, 1.0) / 2.0` called with a str", Body::Stmts(&["zinf_tdivn(\"abc\")"])),
+    // a nested lambda returning a parameter of the enclosing lambda keeps that parameter's type
+    k("nested fold whose inner callback returns the outer callback's list parameter as a str accumulator", Body::Stmts(&["zq :: fold([[\"l\"]], \"0\", pu zx, zacc -> fold([9], zacc, pu zy, za2 -> zx end) end)", "zr :: zq + \"-\""])),
 ];
 
 // ---------------------------------------------------------------- C04 kinds
@@ -433,6 +459,9 @@ pub const C05_KINDS: &[Kind] = &[
     k("field access on self: blob lacks field", Body::Stmts(&["zo :: Zbf { f: fn -> int do", "    self.nope", "end }"])),
     k("field assignment on self: blob lacks field", Body::Stmts(&["zo :: Zbm { n: 1, f: fn -> int do", "    self.nope = 2", "    1", "end }"])),
     k("field access on self in a nested closure: blob lacks field", Body::Stmts(&["zo :: Zbm { n: 1, f: fn -> int do", "    zg :: fn -> int do", "        self.m", "    end", "    zg()", "end }"])),
+    k("case without else: a variant listed twice, another one missing", Body::Stmts(&["case Ze2.B do", "    A zx ->", "    end", "    B ->", "    end", "    B ->", "    end", "end"])),
+    k("case without else: one variant listed three times", Body::Stmts(&["case Ze2.B do", "    C ->", "    end", "    C ->", "    end", "    C ->", "    end", "end"])),
+    k("case without else through un-annotated function: duplicate branch hides a missing variant", Body::Stmts(&["zinf_case(Ze2.C)"])),
     k("break outside a loop", Body::OutsideLoop(&["break"])),
     k("continue outside a loop", Body::OutsideLoop(&["continue"])),
     k("break in an if outside a loop", Body::OutsideLoop(&["if true do", "    break", "end"])),
